@@ -1,6 +1,7 @@
 (* Properties_C15.v — C15: scrolling grid keeps surviving cells and blanks entering cells after any scrolls. *)
 From Coq Require Import ZArith List Bool Arith Lia.
-From Romea Require Import WrapGridModel WrapGridProofs.
+From Romea Require Import WrapGridModel WrapGridProofs WrapGridImp WrapGridImpFacts SrcTieC15.
+From Romea.gen Require Import SrcWrapGrid.
 Import ListNotations.
 
 (* Refinement, for every grid size (2D and 3D), every valid starting state and EVERY sequence of translations
@@ -50,6 +51,104 @@ Theorem C15_init_valid : forall (V : Type) dim3 nx ny nz (d : V), 0 < nx -> 0 < 
   valid (g_init dim3 nx ny nz d) /\ refines (g_init dim3 nx ny nz d) (fun _ => d).
 Proof. exact @init_valid. Qed.
 Print Assumptions C15_init_valid.
+
+(* ================================================================== SYNTACTIC SOURCE TIE
+   gen/SrcWrapGrid.v holds the bodies of WrappableGrid<int, 2|3>::translate, computeCellLinearIndex_ (with wrapCellIndexes_
+   inlined), operator() and the constructor / Grid::init, regenerated on every run from the clang AST as programs of the
+   small imperative language of WrapGridImp.v (size_t arithmetic reduced mod 2^64, int arithmetic with overflow = None,
+   C++ `%`, counted for-loops whose condition is re-checked on every pass).  The theorems below say that RUNNING those
+   programs computes exactly the model's translate step / linear index — for every grid size allowed by `valid` whose
+   buffer is addressable (`fits`: nx*ny*nz < 2^64), every int offset and every state: so the refinement theorems above
+   apply to the code as written.  `represents s g`: the object state s (members numberOfCellsAlongAxes_, ...MinusOne_,
+   indexCoefficients_, indexOffsetsAlongAxes_, buffer_) is the model grid g. *)
+Theorem C15_source_tie_translate_2d : forall (V : Type) (g : wgrid V) (e : V) (kx ky kz : Z) (s : state V),
+  valid g -> g_dim3 g = false -> fits g ->
+  (- two31 <= kx < two31)%Z -> (- two31 <= ky < two31)%Z ->
+  represents s g -> get s (VPar 0) = kx -> get s (VPar 1) = ky ->
+  exists s', exec e src_translate_2d s = Some s' /\ represents s' (translate g kx ky kz e).
+Proof. exact @translate_2d_tie. Qed.
+Print Assumptions C15_source_tie_translate_2d.
+
+Theorem C15_source_tie_translate_3d : forall (V : Type) (g : wgrid V) (e : V) (kx ky kz : Z) (s : state V),
+  valid g -> g_dim3 g = true -> fits g ->
+  (- two31 <= kx < two31)%Z -> (- two31 <= ky < two31)%Z -> (- two31 <= kz < two31)%Z ->
+  represents s g -> get s (VPar 0) = kx -> get s (VPar 1) = ky -> get s (VPar 2) = kz ->
+  exists s', exec e src_translate_3d s = Some s' /\ represents s' (translate g kx ky kz e).
+Proof. exact @translate_3d_tie. Qed.
+Print Assumptions C15_source_tie_translate_3d.
+
+(* computeCellLinearIndex_(cellIndexes) = wrapCellIndexes_(cellIndexes).dot(indexCoefficients_) in size_t arithmetic is the
+   model's lin (no size_t operation wraps); 2D and 3D *)
+Theorem C15_source_tie_linear_index : forall (V : Type) (g : wgrid V) (s : state V) (x y z : nat),
+  valid g -> fits g -> frame g s -> in_window g (x, y, z) = true ->
+  get s (VArg 0) = Z.of_nat x -> get s (VArg 1) = Z.of_nat y ->
+  (g_dim3 g = false -> eval src_linear_index_2d s = Some (Z.of_nat (lin g (x, y, z)))) /\
+  (g_dim3 g = true -> get s (VArg 2) = Z.of_nat z -> eval src_linear_index_3d s = Some (Z.of_nat (lin g (x, y, z)))).
+Proof.
+  intros V g s x y z Hv Hf F Hw A0 A1. apply in_window_spec in Hw. destruct Hw as (Lx & Ly & Lz). split.
+  - intros Hd. unfold frame in F. rewrite Hd in F.
+    assert (z = 0)%nat by (destruct Hv as (_ & _ & _ & _ & _ & _ & _ & H2 & _); rewrite (H2 Hd) in Lz; lia). subst z.
+    apply linear_index_2d; assumption.
+  - intros Hd A2. unfold frame in F. rewrite Hd in F. apply linear_index_3d; assumption.
+Qed.
+Print Assumptions C15_source_tie_linear_index.
+
+(* operator()(cellIndexes) (const and non-const) indexes buffer_ at lin; reading / writing there is g_read / g_write *)
+Theorem C15_source_tie_cell_index_2d : forall (V : Type) (g : wgrid V) (s : state V) (x y : nat),
+  valid g -> g_dim3 g = false -> fits g -> frame g s -> (x < g_nx g)%nat -> (y < g_ny g)%nat ->
+  get s (VArg 0) = Z.of_nat x -> get s (VArg 1) = Z.of_nat y ->
+  eval src_cell_index_2d s = Some (Z.of_nat (lin g (x, y, 0%nat))) /\
+  eval src_cell_index_const_2d s = Some (Z.of_nat (lin g (x, y, 0%nat))).
+Proof. exact @cell_index_2d. Qed.
+Theorem C15_source_tie_cell_index_3d : forall (V : Type) (g : wgrid V) (s : state V) (x y z : nat),
+  valid g -> g_dim3 g = true -> fits g -> frame g s -> (x < g_nx g)%nat -> (y < g_ny g)%nat -> (z < g_nz g)%nat ->
+  get s (VArg 0) = Z.of_nat x -> get s (VArg 1) = Z.of_nat y -> get s (VArg 2) = Z.of_nat z ->
+  eval src_cell_index_3d s = Some (Z.of_nat (lin g (x, y, z))) /\
+  eval src_cell_index_const_3d s = Some (Z.of_nat (lin g (x, y, z))).
+Proof. exact @cell_index_3d. Qed.
+Theorem C15_source_tie_cell_access : forall (V : Type) (g : wgrid V) (s : state V) (i : idx),
+  represents s g -> in_window g i = true ->
+  nth_error (s_buf s) (lin g i) = g_read g i /\
+  forall v, represents (set_buf s (set_nth (lin g i) v (s_buf s))) (g_write g i v).
+Proof. exact @cell_access. Qed.
+
+(* the constructor (Grid::init, then the member initialisers) establishes the members of a fresh model grid *)
+Theorem C15_source_tie_constructor_2d : forall (V : Type) (e : V) (s : state V) nx ny nz (d : V),
+  (0 < nx)%nat -> (0 < ny)%nat -> (Z.of_nat nx < 2 ^ 31)%Z -> (Z.of_nat ny < 2 ^ 31)%Z ->
+  get s (VArg 0) = Z.of_nat nx -> get s (VArg 1) = Z.of_nat ny ->
+  exists s', exec e (SSeq src_init_2d src_ctor_2d) s = Some s' /\ frame (g_init false nx ny nz d) s'.
+Proof. exact @ctor_2d. Qed.
+Theorem C15_source_tie_constructor_3d : forall (V : Type) (e : V) (s : state V) nx ny nz (d : V),
+  (0 < nx)%nat -> (0 < ny)%nat -> (0 < nz)%nat -> (Z.of_nat nx < 2 ^ 31)%Z -> (Z.of_nat ny < 2 ^ 31)%Z -> (Z.of_nat nz < 2 ^ 31)%Z ->
+  get s (VArg 0) = Z.of_nat nx -> get s (VArg 1) = Z.of_nat ny -> get s (VArg 2) = Z.of_nat nz ->
+  exists s', exec e (SSeq src_init_3d src_ctor_3d) s = Some s' /\ frame (g_init true nx ny nz d) s'.
+Proof. exact @ctor_3d. Qed.
+Print Assumptions C15_source_tie_constructor_3d.
+
+(* non-vacuity: a concrete object state representing a fresh 3 x 2 grid / a 2 x 2 x 2 grid; and the generated programs run
+   on them (a computation, only as a smoke test of the interpreter — the theorems above are the tie) *)
+Definition ex_state2 : state Z :=
+  {| s_var := fun v => match v with VN 0 => 3 | VN 1 => 2 | VNm1 0 => 2 | VNm1 1 => 1 | VCoef 0 => 1 | VCoef 1 => 3
+                                  | VPar 0 => 4 | VPar 1 => (-1) | _ => 0 end%Z;
+     s_buf := [10; 11; 12; 13; 14; 15]%Z |}.
+Definition ex_grid2 : wgrid Z := with_buf (g_init false 3 2 1 0%Z) [10; 11; 12; 13; 14; 15]%Z.
+Example C15_ex_represents_2d : valid ex_grid2 /\ fits ex_grid2 /\ represents ex_state2 ex_grid2.
+Proof. split; [|split]; [ repeat split; cbn; try lia; try reflexivity | reflexivity | repeat split; reflexivity ]. Qed.
+Example C15_ex_run_2d :
+  option_map (fun s => (s_buf s, get s (VOff 0), get s (VOff 1))) (exec (-7)%Z src_translate_2d ex_state2)
+  = Some (g_buf (translate ex_grid2 4 (-1) 0 (-7)%Z), 1%Z, 1%Z).
+Proof. vm_compute. reflexivity. Qed.
+
+Definition ex_state3 : state Z :=
+  {| s_var := fun v => match v with VN _ => 2 | VNm1 _ => 1 | VCoef 0 => 1 | VCoef 1 => 2 | VCoef 2 => 4
+                                  | VPar 0 => 1 | VPar 1 => (-3) | VPar 2 => (-1) | _ => 0 end%Z;
+     s_buf := [1; 2; 3; 4; 5; 6; 7; 8]%Z |}.
+Definition ex_grid3 : wgrid Z := with_buf (g_init true 2 2 2 0%Z) [1; 2; 3; 4; 5; 6; 7; 8]%Z.
+Example C15_ex_represents_3d : valid ex_grid3 /\ fits ex_grid3 /\ represents ex_state3 ex_grid3.
+Proof. split; [|split]; [ repeat split; cbn; try lia; try reflexivity; try discriminate | reflexivity | repeat split; reflexivity ]. Qed.
+Example C15_ex_run_3d :
+  option_map (fun s => s_buf s) (exec 0%Z src_translate_3d ex_state3) = Some (g_buf (translate ex_grid3 1 (-3) (-1) 0%Z)).
+Proof. vm_compute. reflexivity. Qed.
 
 (* ---- the code before the repairs (documented defects; witnesses replayed on the old implementation) ---- *)
 (* stored offset overwritten instead of accumulated: two translations by +1 on 3 cells reported 1, not 2 *)
